@@ -75,7 +75,7 @@ FASTOR_INLINE
 void _gemm(const T alpha, const T * FASTOR_RESTRICT a, const T * FASTOR_RESTRICT b, const T beta, T * FASTOR_RESTRICT c) {
 
     FASTOR_ARCH_ALIGN T tmp[M*N];
-    if (beta == 0) {
+    if (beta == T(0)) {
         // non-streaming
         _matmul<T,M,K,N>(a,b,tmp);
         for (size_t i = 0; i<M*N; ++i)
